@@ -20,7 +20,8 @@ EXPLANATION = (
     "metadata read sees its snapshot; the opposite order has a window); (R4) protection is applied to both sweeps."
     " Also: (R5) the collector's marker handling fails closed (handler table of C07.R1); (R6) marker listings are complete and confined; "
     "(R7) the collector honours every fresh marker: each listed *.inflight entry that is not stale reaches "
-    "protected.add(<target>), and the target of a marker whose payload names a path is that path.")
+    "protected.add(<target>), and the target of a marker whose payload names a path is that path."
+    " R1 requires the hook that runs to be the writer's OWN pre_write_hook parameter (a helper's defaulted None does not count).")
 NOT_DECIDED = "grace-period arithmetic versus run duration; the interleavings themselves"
 
 GC = "garbage_collector.GarbageCollector"
